@@ -232,6 +232,11 @@ pub fn generate(tier: &str, rng: &mut Rng) -> Vec<String> {
         v.push(format!("hash {} {}", hex(s.as_bytes()), hex(render_literal(s, rng).as_bytes())));
         v.push(format!("hash {} {}", hex(s.as_bytes()), hex(format!("{:?}", s).replace("\\u{301}", "\u{301}").as_bytes())));
     }
+    // lengths around the SHA-256 block / padding boundaries (55, 56, 64, 119, 120, …)
+    for n in [54usize, 55, 56, 57, 62, 63, 64, 65, 118, 119, 120, 121, 127, 128, 129, 183, 184, 247, 248, 256] {
+        let s: String = (0..n).map(|i| (b'a' + (i % 26) as u8) as char).collect();
+        v.push(format!("hash {} {}", hex(s.as_bytes()), hex(format!("{:?}", s).as_bytes())));
+    }
     for _ in 0..(if thorough { 200_000 } else { 2_500 }) {
         let max = if rng.chance(1, 50) { 4096 } else { 200 };
         let s = rand_string(rng, max);
